@@ -116,23 +116,36 @@ def checked (b : BuiltT) : Nat := if b.setInfoFlag then b.init.length - 2 else b
 inductive Reply | map (proto : Nat) | str | strAZ | rerr (noHello : Bool) | ioerr
   deriving DecidableEq, Repr
 
-def Reply.isMap : Reply → Bool
-  | .map _ => true
-  | _ => false
-
-/-- `panic`: `p.info["availability_zone"] = …` on a nil map (Go run-time panic) -/
+/-- `panic`: a Go run-time panic inside `_newPipe` (the repaired code has none, `C47.setup_never_panics`;
+    before fix 30ce25f: `p.info["availability_zone"] = …` on a nil map) -/
 inductive Fail | cred | err | noCache | panic
   deriving DecidableEq, Repr
 
-/-- error seen by the RESP3 loop at index i: none | Redis error (noHello?) | other error -/
+/-- the finitely many reply kinds the loops distinguish -/
+inductive RK | map | str | strAZ | noHello | rerr | ioerr
+  deriving DecidableEq, Repr
+
+def Reply.kind : Reply → RK
+  | .map _ => .map
+  | .str => .str
+  | .strAZ => .strAZ
+  | .rerr true => .noHello
+  | .rerr false => .rerr
+  | .ioerr => .ioerr
+
+/-- error seen by the RESP3 loop: none | Redis error (noHello?) | other error -/
 inductive E | none | redis (nh : Bool) | other
   deriving DecidableEq
 
-def err3 (az : Bool) (i : Nat) : Reply → E
-  | .rerr nh => .redis nh
+/-- i0: i == 0 (`r.AsMap()`), i1: i == 1 (`r.ToString()` when az), else `r.Error()` -/
+def err3K (az i0 i1 : Bool) : RK → E
+  | .noHello => .redis true
+  | .rerr => .redis false
   | .ioerr => .other
-  | .map _ => if i == 1 && az then .other else .none          -- ToString on a map: parse error
-  | _ => if i == 0 then .other else .none                      -- AsMap on a string: parse error
+  | .map => if !i0 && i1 && az then .other else .none          -- ToString on a map: parse error
+  | _ => if i0 then .other else .none                           -- AsMap on a string: parse error
+
+def err3 (az : Bool) (i : Nat) (rep : Reply) : E := err3K az (i == 0) (i == 1) rep.kind
 
 /-- what the loops ask about `init[i][0]`: is it "READONLY", is it "CLIENT". Every command of
     the extracted plans starts with a literal word (`C47.heads_are_literals`). -/
@@ -151,12 +164,13 @@ structure St3 where
   deriving DecidableEq, Repr
 
 /-- one iteration of the RESP3 loop; `head` is `init[i][0]`. Result: continue, or fail. -/
-def step3 (az : Bool) (i : Nat) (head : Head) (s : St3) (rep : Reply) : Except Fail St3 :=
+def step3K (az i0 i1 : Bool) (head : Head) (s : St3) (k : RK) : Except Fail St3 :=
   -- `p.info, err = r.AsMap()` at i = 0 (nil unless the reply is a map)
-  let infoNil := if i == 0 then !rep.isMap else s.infoNil
-  -- `p.info["availability_zone"] = …` at i = 1 when the INFO text has the line
-  if i == 1 && az && rep == .strAZ && infoNil then .error .panic else
-  match err3 az i rep with
+  let infoNil := if i0 then k != .map else s.infoNil
+  -- at i = 1 when the INFO text has the line: `if p.info == nil { p.info = make(…) }` (the fix:
+  -- commit 30ce25f; before it this was a nil-map panic), then `p.info["availability_zone"] = …`
+  let infoNil := if !i0 && i1 && az && k == .strAZ then false else infoNil
+  match err3K az i0 i1 k with
   | .none => .ok ⟨s.r2, infoNil⟩
   | e =>
     if head == .readonly then .ok ⟨s.r2, infoNil⟩ else
@@ -168,6 +182,9 @@ def step3 (az : Bool) (i : Nat) (head : Head) (s : St3) (rep : Reply) : Except F
       else .error .err
     | _ => .error .err
 
+def step3 (az : Bool) (i : Nat) (head : Head) (s : St3) (rep : Reply) : Except Fail St3 :=
+  step3K az (i == 0) (i == 1) head s rep.kind
+
 def loop3 (az : Bool) (heads : List Head) (rs : Nat → Reply) : Nat → St3 → Except Fail St3 :=
   go heads
 where
@@ -178,16 +195,21 @@ where
     | .ok s' => go hs (i + 1) s'
     | .error f => .error f
 
-/-- one iteration of the RESP2 loop; the state is "p.info is nil" -/
-def step2 (az : Bool) (helloIdx i : Nat) (head : Head) (infoNil : Bool) (rep : Reply) : Except Fail Bool :=
+/-- one iteration of the RESP2 loop; the state is "p.info is nil"; ih: i == helloIndex,
+    ih1: i == helloIndex + 1 -/
+def step2K (az ih ih1 : Bool) (head : Head) (infoNil : Bool) (k : RK) : Except Fail Bool :=
   if head == .readonly then .ok infoNil else
-  match rep with
-  | .rerr nh => if nh then .ok infoNil else .error .err
+  match k with
+  | .noHello => .ok infoNil
+  | .rerr => .error .err
   | .ioerr => .error .err
   | _ =>
-    if i == helloIdx then .ok (!rep.isMap)
-    else if az && i == helloIdx + 1 then (if rep == .strAZ && infoNil then .error .panic else .ok infoNil)
+    if ih then .ok (k != .map)                        -- `p.info, err = r.AsMap()`
+    else if az && ih1 then (if k == .strAZ then .ok false else .ok infoNil)   -- map created when nil (fix: 30ce25f)
     else .ok infoNil
+
+def step2 (az : Bool) (helloIdx i : Nat) (head : Head) (infoNil : Bool) (rep : Reply) : Except Fail Bool :=
+  step2K az (i == helloIdx) (i == helloIdx + 1) head infoNil rep.kind
 
 def loop2 (az : Bool) (helloIdx : Nat) (heads : List Head) (rs : Nat → Reply) : Nat → Bool → Except Fail Bool :=
   go heads
